@@ -288,6 +288,39 @@ fn acc_b256_len2() {
     assert!(out.len() == 2);
 }
 
+/// One-codeword Base256 length 1..=249 (symbolic, in particular the boundary
+/// value 249) at a symbolic position, followed by only two data codewords: the
+/// decoder must ask for exactly that many bytes (Ok for 1 and 2, UnexpectedEnd
+/// after two bytes otherwise).
+#[kani::proof]
+#[kani::unwind(6)]
+fn acc_b256_len1() {
+    let pos: usize = kani::any();
+    kani::assume(pos <= 1300);
+    let l: usize = kani::any();
+    kani::assume(l >= 1 && l <= 249);
+    let d: [u8; 2] = kani::any();
+    let mut f = [0u8; 3];
+    f[0] = iso::rand_255(l as u8, pos + 1);
+    f[1] = d[0];
+    f[2] = d[1];
+    let mut out: Vec<u8> = Vec::with_capacity(8);
+    let r = decode_base256(Reader(&f[..3], pos), &mut out);
+    if l <= 2 {
+        match r {
+            Ok((rest, m)) => {
+                assert!(m == EncodationType::Ascii && out.len() == l && rest.len() == 2 - l);
+                assert!(out[0] == iso::unrand_255(d[0], pos + 2));
+            }
+            Err(_) => assert!(false),
+        }
+    } else {
+        assert!(r == Err(DataDecodingError::UnexpectedEnd));
+        assert!(out.len() == 2);
+    }
+    kani::cover!(l == 249);
+}
+
 /// PAD handling of the ASCII decoder at an arbitrary position: PAD followed by
 /// correct 253-state pads is accepted silently; one wrong pad is rejected.
 #[kani::proof]
